@@ -1,0 +1,16 @@
+//go:build verif
+
+package exit
+
+import "github.com/postalsys/muti-metroo/internal/crypto"
+
+// VerifSessionKey returns the end-to-end session key of an active exit
+// connection (nil if there is none). Verification harness only (C03).
+func (h *Handler) VerifSessionKey(streamID uint64) *crypto.SessionKey {
+	h.mu.RLock()
+	defer h.mu.RUnlock()
+	if ac := h.connections[streamID]; ac != nil {
+		return ac.sessionKey
+	}
+	return nil
+}
